@@ -26,7 +26,7 @@ RULE = (
     "read-only and one with it as a non-contiguous view (2-D slots also Fortran-ordered), plus all slots read-only; the caller overwrites every returned buffer "
     "before the second run; interference: for every ordered pair of option variants (A, B) of 25 function families: A, B, A again must "
     "give A's result. (b) explicit-state BFS over histories of %d estimator specs "
-    "with the event alphabet {fit(D_a), fit(D_b), fit(D_c), predict, filter(D_a), grid, score(last dataset), scatter, profile, clone, set_params(**get_params()), switch to an "
+    "with the event alphabet {fit(D_a), fit(D_b), fit(D_c), fit(D_d = D_a re-located by parts in 1e7, other readings), predict, filter(D_a), grid, score(last dataset), scatter, profile, clone, set_params(**get_params()), switch to an "
     "alternative / back to the base parameter set through set_params, caller overwrites the arrays it passed earlier}, depth 3 (thorough 4), every history replayed on a fresh estimator (histories merged on (abstract state, concrete fingerprint) only for SplineCV), invariant: the "
     "fingerprint equals that of the shortest history with the same abstract state; (b2) histories of depth 3 (thorough 5) over ONE instance of each of 9 parameter-only objects (BlockReduce x3, BlockMean x2, BlockKFold x2, BlockShuffleSplit, CheckerBoard) with the alphabet {call on D_a / D_b / D_c, switch a parameter and back, clone, params round trip, caller overwrites everything passed and received}: every call equals that of a fresh instance with the current parameters. (c) %d single inconsistencies that must raise. "
     "Non-trivial: every case."
@@ -42,6 +42,12 @@ def _pts(which):
     if which == "a":
         e = np.array([0.2, 0.7, 1.3, 2.6, 3.5, 0.5, 1.6, 2.8, 3.3, 3.8, 2.2, 1.2])
         n = np.array([0.3, 0.6, 0.4, 0.2, 0.5, 1.4, 1.7, 1.6, 1.3, 1.9, 0.7, 1.2])
+    elif which == "d":
+        # the stations of dataset a re-located by a few parts in 1e7 (a repeat survey), with quite different readings (round 8, seed C03-16:
+        # a triangulation reused when the new points are np.allclose to the old ones)
+        e0, n0, d00, d10 = _pts("a")
+        k0 = np.arange(e0.size)
+        return e0 * (1 + 3e-7) + 2e-7 * ((k0 * 5) % 3), n0 * (1 - 2e-7) - 1e-7 * (k0 % 4), 50.0 - 3.0 * d00[::-1], 7.0 + 2.0 * d10[::-1]
     elif which == "b":
         e = np.array([10.0, 11.5, 13.0, 10.5, 12.2, 11.1, 12.9, 10.2])
         n = np.array([-5.0, -4.2, -4.8, -3.1, -3.5, -4.6, -3.9, -3.3])
@@ -74,7 +80,7 @@ SPECS = {
 VECTOR_SPECS = {"VectorSpline2D", "VectorSpline2D(force_coords)", "Vector"}
 NO_OVERWRITE = {"Linear", "Cubic"}
 DEDUPE = {"SplineCV"}
-EVENTS = ["fit_a", "fit_b", "fit_c", "predict", "filter_a", "grid", "clone", "params", "overwrite", "alt", "base", "score", "scatter", "profile"]
+EVENTS = ["fit_a", "fit_b", "fit_c", "fit_d", "predict", "filter_a", "grid", "clone", "params", "overwrite", "alt", "base", "score", "scatter", "profile"]
 OBSERVERS = ("predict", "grid", "score", "scatter", "profile")
 
 
